@@ -81,12 +81,14 @@ class TLCResult:
         return out
 
     def coverage_zero(self):
-        """action/expression locations with count 0 in a -coverage run (names only)."""
-        z = []
-        for m in re.finditer(r"^<(\w+) line .*?>: (\d+):(\d+)$", self.out, re.M):
-            if int(m.group(3)) == 0 and int(m.group(2)) == 0:
-                z.append(m.group(1))
-        return z
+        """action names with count 0 in the FINAL coverage report of a -coverage run (TLC also prints
+        interim reports every minute, in which late actions are still 0: those are ignored)."""
+        blocks = self.out.split("The coverage statistics at ")
+        last = blocks[-1] if len(blocks) > 1 else self.out
+        taken, zero = set(), set()
+        for m in re.finditer(r"^<(\w+) line .*?>: (\d+):(\d+)$", last, re.M):
+            (taken if int(m.group(3)) > 0 or int(m.group(2)) > 0 else zero).add(m.group(1))
+        return sorted(zero - taken)
 
 
 class Ctx:
